@@ -16,6 +16,27 @@ import (
 
 func main() { Main(run) }
 
+// c02Priv is the RDATA of a private-use type registered with dns.PrivateHandle.
+type c02Priv struct{ b []byte }
+
+func (d *c02Priv) String() string         { return Hx(d.b) }
+func (d *c02Priv) Parse(s []string) error { return nil }
+func (d *c02Priv) Pack(buf []byte) (int, error) {
+	if len(buf) < len(d.b) {
+		return 0, dns.ErrBuf
+	}
+	return copy(buf, d.b), nil
+}
+func (d *c02Priv) Unpack(buf []byte) (int, error) {
+	d.b = append([]byte(nil), buf...)
+	return len(buf), nil
+}
+func (d *c02Priv) Copy(dst dns.PrivateRdata) error {
+	dst.(*c02Priv).b = append([]byte(nil), d.b...)
+	return nil
+}
+func (d *c02Priv) Len() int { return len(d.b) }
+
 var st = map[string]int{}
 var classes = map[string]int{}
 
@@ -675,6 +696,63 @@ func run(r *Rng, tier string, n int) {
 		}
 		hostile(b, i < 150 && emit(), "random")
 		hostileRR(b, 12, i < 60)
+	}
+	// (9) a message of the maximal size filled with as many records of ONE type as fit (the RDATA of a valid
+	// record of that type, repeated behind a root owner): work and allocation stay within the fixed multiple of
+	// the input length whatever the record's position in the message; and the same for 300 octets
+	{
+		pool := &NamePool{R: r}
+		for _, t := range AllTypes() {
+			var rec []byte
+			for k := 0; k < 20 && rec == nil; k++ {
+				rr, info := GenRR(r, pool, t, false)
+				if rr == nil || !info.WellFormed {
+					continue
+				}
+				rr.Header().Name = "."
+				buf := make([]byte, 4096)
+				if off, err := dns.PackRR(rr, buf, 0, nil, false); err == nil && off <= 120 {
+					rec = buf[:off]
+				}
+			}
+			if rec == nil {
+				continue
+			}
+			for _, total := range []int{300, 65535} {
+				n := (total - 12) / len(rec)
+				if n > 65535 {
+					n = 65535
+				}
+				w := []byte{0, 1, 0x80, 0, 0, 0, byte(n >> 8), byte(n), 0, 0, 0, 0}
+				for i := 0; i < n; i++ {
+					w = append(w, rec...)
+				}
+				hostile(w, false, "maximal-"+dns.TypeToString[t])
+				st["maximal_one_type_messages"]++
+			}
+		}
+	}
+	// (10) a private-use type registered with PrivateHandle: records of it with RDLENGTH 0, 1 and more, alone and
+	// among others: accepted values can be printed, measured, copied and re-packed
+	{
+		const code = 65342
+		dns.PrivateHandle("VHOSTILE", code, func() dns.PrivateRdata { return new(c02Priv) })
+		for _, rd := range [][]byte{{}, {7}, {1, 2, 3, 4}, r.Bytes(40)} {
+			for _, cnt := range []int{1, 3} {
+				w := []byte{0, 2, 0x80, 0, 0, 0, 0, byte(cnt), 0, 0, 0, 0}
+				for i := 0; i < cnt; i++ {
+					w = append(w, 0, byte(code>>8), byte(code&0xff), 0, 1, 0, 0, 0, 0, byte(len(rd)>>8), byte(len(rd)))
+					w = append(w, rd...)
+				}
+				hostile(w, false, "private-type")
+				hostileRR(w, 12, false)
+				for cut := 12; cut < len(w); cut++ {
+					hostile(w[:cut], false, "private-type-truncated")
+				}
+				st["private_type_messages"]++
+			}
+		}
+		dns.PrivateHandleRemove(code)
 	}
 	concurrentUse()
 	for k, v := range classes {
